@@ -128,3 +128,27 @@ def check(ctx):
                           "non-ASCII characters in the JSON text are sent as Latin-1 bytes under `charset=utf-8` (undecodable by the peer) "
                           "or make the encoder raise UnicodeEncodeError: the body does not survive the round trip")
     ctx.floor("T9-json:sites", nj, 2)
+    plus_decoders(ctx, "T7-query")
+
+
+def plus_decoders(ctx, rule):
+    """the encoders (updateQargsQuery, Requester.build) write spaces as `+` (quote_plus): a query decoder that does not turn
+    `+` back into a space (plain unquote) may exist but must not be called on a request/redirect path (shared with C34)"""
+    hm = ctx.repo.mod("aio.http.httping")
+    ctx.use(hm)
+    plain = set()
+    for f in hm.tree.body:
+        if isinstance(f, ast.FunctionDef) and "query" in f.name.lower():
+            calls = {call_name(x) for x in ast.walk(f) if isinstance(x, ast.Call)}
+            if "unquote" in calls and "unquote_plus" not in calls:
+                plain.add(f.name)
+    n = 0
+    for modn in ("aio.http.clienting", "aio.http.serving", "aio.http.httping"):
+        m = ctx.repo.mod(modn)
+        ctx.use(m)
+        for x in ast.walk(m.tree):
+            if isinstance(x, ast.Call) and (call_name(x) or "").split(".")[-1] in plain:
+                n += 1
+                ctx.bad(rule, x, src(x)[:80], "this query decoder uses unquote (not unquote_plus): a `+` written by the encoder for a space "
+                        "stays a literal plus and is re-encoded as %2B, so the query that arrives differs from the one sent")
+    ctx.ok(rule, "ioflo/aio/http", "no call of a query decoder that keeps `+` literal (%s); %d call(s) found" % (sorted(plain) or "none defined", n))
